@@ -73,10 +73,10 @@ func (R *Run) check(cond bool, rule, construct, pos, okReason, badReason string,
 // confirmed by hand has gone vacuous).
 func (R *Run) floor(rule string, n int) { R.floors[rule] = n }
 
-func (R *Run) note(s string)           { R.notes = append(R.notes, s) }
-func (R *Run) assumes(s ...string)     { R.assume = append(R.assume, s...) }
-func (R *Run) analysed(fn string)      { R.fnsSeen[fn] = true }
-func (R *Run) countSites(n int)        { R.sites += n }
+func (R *Run) note(s string)       { R.notes = append(R.notes, s) }
+func (R *Run) assumes(s ...string) { R.assume = append(R.assume, s...) }
+func (R *Run) analysed(fn string)  { R.fnsSeen[fn] = true }
+func (R *Run) countSites(n int)    { R.sites += n }
 
 type KnownFinding struct {
 	Property  string `json:"property"`
